@@ -25,7 +25,7 @@ EPOCH = datetime(1970, 1, 1, tzinfo=timezone.utc)
 U = 10**11
 EPS = F(5, 10**31)
 PERIOD = 365
-ACCTS = [("Coinbase", "Bob"), ("Kraken", "Bob"), ("BlockFi", "Alice"), ("Coinbase", "Alice")]
+ACCTS = [("Coinbase", "Bob"), ("Kraken", "Bob"), ("BlockFi", "Alice"), ("Coinbase", "Alice"), ("Kraken", "Alice")]
 INI = os.path.join(os.environ["RP2_REPO"], "config", "test_data.ini")
 EARN = ["INTEREST", "MINING", "STAKING", "AIRDROP", "WAGES", "INCOME", "HARDFORK"]
 
@@ -87,6 +87,9 @@ def gen(rng, prop=None):
     n = rng.randint(2, 14)
     pool = sorted(rng.sample(range(0, 1200), rng.randint(2, 6)))
     offs = [0] if rng.random() > MIXED.get(prop, 0.4) else [0, -8 * 3600, 5 * 3600 + 1800, 14 * 3600, -12 * 3600]
+    if offs == [0] and rng.random() < 0.35:
+        offs = [rng.choice([9 * 3600, -5 * 3600, 14 * 3600, -12 * 3600, 5 * 3600 + 1800])]      # one non-UTC zone for the whole history
+    newyear = rng.random() < 0.3
     bal = defaultdict(int)
     rows = []
     secs = sorted(rng.choice([0, 0, 3600 * 23, 43207]) for _ in range(n))
@@ -96,6 +99,10 @@ def gen(rng, prop=None):
         pool = sorted([d0, d0 + PERIOD, d0 + rng.choice([PERIOD - 1, PERIOD + 1, 2 * PERIOD])][:rng.randint(2, 3)])
         base = rng.choice([0, 3600 * 23, 43207])
         secs = sorted(base + rng.choice([0, 0, 1, -1]) for _ in range(n))
+    if newyear and prop != "C05":
+        # instants around New Year (days 213/214 = 2019-12-31 / 2020-01-01, 579/580 = 2020-12-31 / 2021-01-01) and near midnight
+        pool = sorted(set(rng.choice([213, 214, 579, 580, 944, 945]) for _ in range(rng.randint(2, 5))) | {rng.randint(0, 212)})
+        secs = sorted(rng.choice([0, 1800, 3 * 3600 + 1800, 10 * 3600, 20 * 3600, 23 * 3600 + 1800]) for _ in range(n))
     for idx in range(n):
         d = pool[min(len(pool) - 1, idx * len(pool) // n)]
         u = us(datetime(2019, 6, 1, tzinfo=timezone.utc) + timedelta(days=d, seconds=secs[idx]))
@@ -193,11 +200,14 @@ def run_impl(case, fd="case", td="case", rows=None):
                    "proceeds": fr(g.taxable_event_fiat_amount_with_fee_fraction), "cost": fr(g.fiat_cost_basis), "gain": fr(g.fiat_gain),
                    "long": bool(g.is_long_term_capital_gains()), "evk": gls.get_taxable_event_fraction(g), "evn": gls.get_taxable_event_number_of_fractions(g.taxable_event),
                    "lotk": gls.get_acquired_lot_fraction(g) if l else None, "lotn": gls.get_acquired_lot_number_of_fractions(l) if l else None,
-                   "typ": g.taxable_event.transaction_type.value})
+                   "typ": g.taxable_event.transaction_type.value, "run": fr(cd.get_crypto_gain_loss_running_sum(g))})
     ys = sorted([y.year, y.transaction_type.value, bool(y.is_long_term_capital_gains), fr(y.crypto_amount), fr(y.fiat_amount), fr(y.fiat_cost_basis), fr(y.fiat_gain_loss)] for y in cd.yearly_gain_loss_list)
     bs = sorted([ACCTS.index((b.exchange, b.holder)), int(Decimal(b.acquired_balance) * U), int(Decimal(b.sent_balance) * U), int(Decimal(b.received_balance) * U), int(Decimal(b.final_balance) * U)] for b in cd.balance_set)
     shown = {"in": [int(t.internal_id) for t in cd.in_transaction_set], "out": [int(t.internal_id) for t in cd.out_transaction_set], "intra": [int(t.internal_id) for t in cd.intra_transaction_set]}
-    return {"status": "ok", "fractions": fs, "yearly": ys, "balances": bs, "price": fr(cd.price_per_unit), "shown": shown}
+    sums = {"in": sorted([int(t.internal_id), fr(cd.get_in_lot_sold_percentage(t)), fr(cd.get_crypto_in_running_sum(t))] for t in cd.in_transaction_set),
+            "out": sorted([int(t.internal_id), fr(cd.get_crypto_out_running_sum(t)), fr(cd.get_crypto_out_fee_running_sum(t))] for t in cd.out_transaction_set),
+            "intra": sorted([int(t.internal_id), fr(cd.get_crypto_intra_fee_running_sum(t))] for t in cd.intra_transaction_set)}
+    return {"status": "ok", "fractions": fs, "yearly": ys, "balances": bs, "price": fr(cd.price_per_unit), "shown": shown, "sums": sums}
 
 
 def encode(case):
@@ -232,11 +242,12 @@ def parse_model(block):
     bs = []
     price = None
     shown = {"in": [], "out": [], "intra": []}
+    sums = {"in": [], "out": [], "intra": []}
     n = lambda s: None if s == "-" else int(s)
     for l in lines:
         t = l.split()
         if t[0] == "F":
-            fs.append({"ev": int(t[1]), "lot": n(t[2]), "amt": int(t[3]), "proceeds": t[4], "cost": t[5], "gain": t[6], "long": t[7] == "1", "evk": int(t[8]), "evn": int(t[9]), "lotk": n(t[10]), "lotn": n(t[11]), "typ": t[12]})
+            fs.append({"ev": int(t[1]), "lot": n(t[2]), "amt": int(t[3]), "proceeds": t[4], "cost": t[5], "gain": t[6], "long": t[7] == "1", "evk": int(t[8]), "evn": int(t[9]), "lotk": n(t[10]), "lotn": n(t[11]), "typ": t[12], "run": t[13]})
         elif t[0] == "Y":
             ys.append([int(t[1]), t[2], t[3] == "1", t[4], t[5], t[6], t[7]])
         elif t[0] == "B":
@@ -245,7 +256,13 @@ def parse_model(block):
             price = t[1]
         elif t[0] == "V":
             shown[t[1]] = [int(x) for x in t[2:]]
-    return {"status": "ok", "fractions": fs, "yearly": sorted(ys), "balances": sorted(bs), "price": price, "shown": shown}
+        elif t[0] == "S":
+            sums["in"].append([int(t[1]), t[2], t[3]])
+        elif t[0] == "RO":
+            sums["out"].append([int(t[1]), t[2], t[3]])
+        elif t[0] == "RX":
+            sums["intra"].append([int(t[1]), t[2]])
+    return {"status": "ok", "fractions": fs, "yearly": sorted(ys), "balances": sorted(bs), "price": price, "shown": shown, "sums": {k: sorted(v) for k, v in sums.items()}}
 
 
 def run_model(cases):
@@ -287,6 +304,10 @@ def diff(case, i, m):
         d.append("price")
     if i["shown"] != m["shown"]:
         d.append("views")
+    elif i["sums"] != m["sums"]:
+        d.append("sums")
+    if "fractions" not in d and any(a["run"] != b["run"] for a, b in common_f):
+        d.append("sums")
     return d
 
 
@@ -553,7 +574,7 @@ def oracle_c09(case, res, guard=True):
     tr = run_impl(case, fd=MIN_DATE, td=MAX_DATE, rows=keep)
     if tr["status"] != "ok":
         return f"truncated history fails ({tr['status']}) while the run limited by the to-date succeeds"
-    for k in ("fractions", "yearly", "balances", "price"):
+    for k in ("fractions", "yearly", "balances", "price", "sums"):
         if tr[k] != res[k]:
             return f"{k} of the run limited by the to-date differ from the run on the history truncated at that date"
     return None
